@@ -19,8 +19,22 @@ type rtcOp struct {
 	a []int
 }
 
+// every third scenario runs on the RAM-less clock cartridge (type 0F) instead of type 10
+var rtcCartNoRAM = cartSpec{"mbc3", 0x0f, 2, 0, true}
+
+func rtcCartFor(id string) cartSpec {
+	h := 0
+	for _, ch := range id {
+		h = h*31 + int(ch)
+	}
+	if h%3 == 0 {
+		return rtcCartNoRAM
+	}
+	return rtcCart
+}
+
 func rtcExec(id string, ops []rtcOp) *trace.Scenario {
-	m := machine.New(cartImage(rtcCart), machine.Options{NoCPU: true})
+	m := machine.New(cartImage(rtcCartFor(id)), machine.Options{NoCPU: true})
 	sc := &trace.Scenario{ID: id, Reset: []int{}}
 	for _, o := range ops {
 		var ev []any
